@@ -10,6 +10,9 @@
 2. code -> spec: the REAL Controller runs every case under seeded schedules; each run must terminate (quiescence
    detector), be a behaviour of the specification (trace validation by TLC), end in a terminal state TLC found for
    that case, and satisfy the property itself.
+Since the growth item G02 the model has the environment action ExternalKill: termination (deadlock check) is also checked
+with it switched on, and one real schedule in five kills the controller at a random turn; those runs must terminate and be
+behaviours of the specification, the confluence judgement (rule, terminal states) applies to the runs that were not killed.
 """
 import collections
 import json
@@ -19,7 +22,7 @@ import random
 from ..common import Check, MachineryError
 from .. import sched_check as SC
 from .. import sched_shapes as SS
-from .c01 import INVS, ACTIONS, FIXOBS, describe, key_for_trace
+from .c01 import INVS, ACTIONS, FIXOBS, describe, key_for_trace, kill_env
 
 PID = "C02"
 FINAL = ("finished", "failed", "shutdown")
@@ -75,16 +78,20 @@ def run(tier):
     shapes = SS.THOROUGH if thorough else SS.QUICK
     rnd = random.Random(chk.seed)
     # 1a. termination on the model: no deadlock except quiescence; liveness under fairness
-    d = SC.rundir("c02dl" + tier, shapes)
-    body = SC.CONST % ("FALSE", "TRUE" if FIXOBS else "FALSE") + "INIT Init\nNEXT NextOrIdle\n" + "".join("INVARIANT %s\n" % i for i in INVS) + "CHECK_DEADLOCK TRUE\n"
-    from .. import tlc
-    r = tlc.run_tlc("Scheduler", SC.cfg(os.path.join(d, "dl.cfg"), body), specdir=d, coverage=True, timeout=1700, expect_violation=True)
+    r = SC.model_check("c02dl" + tier, shapes, [], INVS, fixobs=FIXOBS, deadlock=True)
     if r["violated"]:
         raise MachineryError("Scheduler.tla: %s on the model (a non-quiescent state without successor = a stage that never ends):\n%s" % (
             r["violated"], r["out"][-3000:]))
     for a in ACTIONS:
         if not r["coverage"].get(a):
             raise MachineryError("action %s never taken (vacuous model run): %s" % (a, r["coverage"]))
+    chk.add_tlc(r)
+    # termination with the environment allowed to kill the controller at any time during a stage (two scan orders per shape)
+    r = SC.model_check("c02dlkill" + tier, shapes, [], INVS + ["KillReachesAll"], fixobs=FIXOBS, deadlock=True, kill=True, all_orders=False)
+    if r["violated"]:
+        raise MachineryError("Scheduler.tla with ExternalKill: %s on the model:\n%s" % (r["violated"], r["out"][-3000:]))
+    if not r["coverage"].get("ExternalKill"):
+        raise MachineryError("action ExternalKill never taken: %s" % r["coverage"])
     chk.add_tlc(r)
     live_shapes = shapes if thorough else shapes[:6]
     r = SC.model_check("c02live" + tier, live_shapes, ["Termination"], [], fixobs=FIXOBS, coverage=False, liveness=True)
@@ -117,11 +124,12 @@ def run(tier):
     # 2. real runs
     cases = SC.all_cases(shapes, None if thorough else 14, rnd)
     nsched = 14 if thorough else 4
-    runs = SC.run_real(cases, nsched, chk.scratch, chk.seed + 7, per_shape_budget=120 if thorough else 40)
+    runs = SC.run_real(cases, nsched, chk.scratch, chk.seed + 7, per_shape_budget=120 if thorough else 40, env_for=kill_env)
     results, tl = SC.validate_traces("c02" + tier, shapes, runs, fixobs=FIXOBS)
     for t in tl:
         chk.add_tlc(t)
     per_case = collections.defaultdict(set)
+    killed_runs = 0
     for h, res in zip(runs, results):
         chk.evaluated((h.shape_name, tuple(h.oa), h.sched))
         rp = dict(kind="real", shape=h.shape_name, oa=h.oa, sched=h.sched)
@@ -135,6 +143,9 @@ def run(tier):
                 h.shape_name, h.oa, h.sched, res["kind"], res.get("step"), json.dumps(describe(h, res.get("step")))[:1200]), rp)
             continue
         chk.trace_validated()
+        if h.killed:
+            killed_runs += 1          # terminated and is a behaviour of the specification; no confluence claim for killed runs
+            continue
         nodes = [h.ref(n) for n in h.nodes]
         cs = tuple(h.final["comps"][r_]["cs"] for r_ in nodes)
         verdict = tuple(h.final["verdict"])
@@ -147,6 +158,7 @@ def run(tier):
                 h.shape_name, h.oa, h.sched, cs, verdict, sorted(terms[k])), rp)
         for complaint in judge(h.shape_name, rule, unrec, cs, verdict):
             chk.violation(key_for(h.shape_name, rule, "real"), "real run: %s outcomes=%s schedule=%s: %s" % (h.shape_name, h.oa, h.sched, complaint), rp)
+    chk.cov["real_runs_with_external_kill_validated"] = killed_runs
     chk.cov["real_cases_with_more_than_one_outcome"] = sum(1 for v in per_case.values() if len(v) > 1)
     # how much of what the model allows did the sampled schedules of the real code actually reach?
     allowed = sum(len(terms[k]) for k in per_case)
@@ -173,8 +185,7 @@ def replay(path):
         print("model-level finding: re-run ./check C02 to re-derive; case:", d)
         chk.evaluated(("m",)); chk.evaluated(("m2",))
         return chk.finish()
-    seed_, bm, eb, cw = d["sched"]
-    h = ctl.run_case(d["shape"], d["oa"], chk.scratch, ctl.RandomPolicy(seed_, burst_max=abs(bm), env_bias=eb, ctrl_weight=cw, eager_internal=bm < 0))
+    h = ctl.run_case(d["shape"], d["oa"], chk.scratch, SC.make_policy(tuple(d["sched"])))
     for e in h.trace:
         print(e["ev"], e["arg"], e["calls"], {k: v["cs"] for k, v in e["st"]["comps"].items()})
     print("final:", {k: v["cs"] for k, v in h.final["comps"].items()}, h.final["verdict"], "stuck:", h.stuck)
